@@ -1435,12 +1435,12 @@ def oracle_pairs(ctx, scr, thorough, fs_options, fs_formats, defaults_o, default
                 ctx.note("wrap_off_rejected_%d_%s" % (li, wl), eoff)
                 continue
             for p, it in conts:
-                if not thorough and r.random() < 0.35 and not any(k[0] != "fn" for k in it[4]):
-                    continue
+                depth_ns = sum(1 for q in range(1, len(p) + 1) if _node_at(off["tree"], p[:q])[0] == "ns")
+                if (not thorough and depth_ns < 2 and r.random() < 0.35 and not any(k[0] != "fn" for k in it[4])):
+                    continue    # quick: always the nested placements, a sample of the flat ones
                 a = copy.deepcopy(off); b = copy.deepcopy(off)
                 a["tree"] = set_on(off["tree"], p, 2, wl, True)
                 b["tree"] = set_on_members(off["tree"], p, 2, wl, True)
-                depth_ns = sum(1 for q in range(1, len(p) + 1) if _node_at(off["tree"], p[:q])[0] == "ns")
                 wrap_dist["%s.%s.nsdepth%d" % (wl, it[0], depth_ns)] += 1
                 orc.compare_docs("%s-on-%s" % (wl, it[0]), "wrap:%s:%s" % (wl, it[0]),
                                  "option %s=True on %s (library: off) vs on each contained function" % (wl, it[0]),
